@@ -34,6 +34,30 @@ def scope_net(rng, pp):
     for i in net.trafo.index:
         if rng.random() < 0.4:
             net.trafo.at[i, "tap_pos"] = net.trafo.at[i, "tap_neutral"] if not math.isnan(net.trafo.at[i, "tap_neutral"]) else 0
+    # buses whose active power sums to exactly zero while reactive power remains (either sign), and a pure reactive load
+    free = [int(b) for b in net.bus.index if net.bus.in_service.at[b] and b not in set(net.ext_grid.bus) | set(net.gen.bus)]
+    if free and rng.random() < 0.5:
+        b = rng.choice(free)
+        for tab in ("load", "sgen"):
+            net[tab] = net[tab][net[tab].bus != b]
+        kind = rng.choice(["cancel+", "cancel-", "q-only"])
+        if kind == "q-only":
+            pp.create_load(net, b, 0., rng.choice([0.4, -0.3]))
+        else:
+            pp.create_load(net, b, 0.5, 0.6 if kind == "cancel+" else 0.1)
+            pp.create_sgen(net, b, 0.5, 0.2 if kind == "cancel+" else -0.3)
+    # cost data and a controllable static generator at a voltage-controlled bus: to_ppc(mode=None) then converts in OPF mode
+    if rng.random() < 0.3:
+        pp.create_poly_cost(net, int(net.ext_grid.index[0]), "ext_grid", cp1_eur_per_mw=1.)
+        vb = [int(b) for b in net.gen.bus[net.gen.in_service]] + [int(b) for b in net.ext_grid.bus[net.ext_grid.in_service]]
+        b = rng.choice(vb)
+        for tab, col in (("gen", "vm_pu"), ("ext_grid", "vm_pu")):
+            net[tab].loc[net[tab].bus == b, col] = rng.choice([1.01, 1.02, 0.99])
+        pp.create_sgen(net, b, 0.3, 0.1, controllable=True, min_p_mw=0., max_p_mw=0.6, min_q_mvar=-0.2, max_q_mvar=0.2)
+        for et in ("gen", "ext_grid"):
+            net[et]["min_p_mw"], net[et]["max_p_mw"] = -1000., 1000.
+            net[et]["min_q_mvar"], net[et]["max_q_mvar"] = -1000., 1000.
+        net.bus["min_vm_pu"], net.bus["max_vm_pu"] = 0.8, 1.2
     return net
 
 
